@@ -164,21 +164,27 @@ def case_term(c, o):
 
 
 def evaluate(ctx, cases):
+    import os
+    from concurrent.futures import ThreadPoolExecutor
     outs = [None] * len(cases)
-    for env, _ in MODES:
+    saved = os.environ.pop("QE_IPC_CACHE", None)     # "unset" must really be unset for the Auto dispatcher
+    vlib.build_harness("c19")
+
+    def one_mode(env):
+        # one dispatcher per mode (3 jobs in parallel); the dispatcher runs every history in a process of its own
         idx = [i for i, c in enumerate(cases) if c["mode"] == env]
         if not idx:
-            continue
+            return []
         e = {"QE_IPC_CACHE": env} if env is not None else {}
-        import os
-        saved = os.environ.pop("QE_IPC_CACHE", None)
-        try:
-            rs = vlib.run_harness("c19", [harness_ops(cases[i]) for i in idx], env=e)
-        finally:
-            if saved is not None:
-                os.environ["QE_IPC_CACHE"] = saved
-        for i, r in zip(idx, rs):
-            outs[i] = r
+        return list(zip(idx, vlib.run_harness("c19", [harness_ops(cases[i]) for i in idx], env=e, timeout=6000)))
+    try:
+        with ThreadPoolExecutor(max_workers=3) as ex:
+            for part in ex.map(one_mode, [env for env, _ in MODES]):
+                for i, r in part:
+                    outs[i] = r
+    finally:
+        if saved is not None:
+            os.environ["QE_IPC_CACHE"] = saved
     terms, good = [], []
     for c, o in zip(cases, outs):
         t = case_term(c, o)
@@ -196,8 +202,11 @@ def evaluate(ctx, cases):
             continue
         eq.append(all(j[0] for j in js))
         ok.append(all(j[1] for j in js))
-        # the case's class: the class (decided by the model state, not by the failure) of the first step that has one
-        c["_class"] = next((CLASS[k] for k in cls if k), None)
+        # each step's class is decided by the model state it starts from (Coq `classes`), never by the failure.
+        # A history is only excusable if EVERY stale step is itself in a class; it is then filed under the class of
+        # its first classed step.
+        unexcused = any((not j[1]) and not k for j, k in zip(js, cls))
+        c["_class"] = None if unexcused else next((CLASS[k] for k in cls if k), None)
     return outs, eq, ok
 
 
